@@ -1,11 +1,12 @@
 #!/usr/bin/env bash
-# seed_import.sh <CNN> <n> <seed dir> — copies a seeded change into /verif/seeded/<CNN>-s<n>/ (patch.diff, demo_test.go) and
+# seed_import.sh <CNN> <n> <seed dir> [label, default s] — copies a seeded change into /verif/seeded/<CNN>-s<n>/ (patch.diff, demo_test.go) and
 # confirms it independently (scripts/seed_confirm.sh); prints the CONFIRM line. meta.json is written by hand/afterwards.
 set -uo pipefail
 cd "$(dirname "${BASH_SOURCE[0]}")/.."
-id="$1"; n="$2"; src="$3"
-dst="seeded/$id-s$n"; mkdir -p "$dst"
+id="$1"; n="$2"; src="$3"; label="${4:-s}"
+dst="seeded/$id-$label$n"; mkdir -p "$dst"
 cp "$src/change-$n.diff" "$dst/patch.diff"; cp "$src/demo-${n}_test.go" "$dst/demo_test.go"
 pkg=$(grep -m1 -i 'place in' "$dst/demo_test.go" | sed -E 's/.*place in:[[:space:]]*//; s/[[:space:]].*//; s#^\./?$#.#; s#/$##')
+[ -d "/repo/$pkg" ] || pkg=.   # free-text placement notes ("the repository root ...") mean the root package
 [ -z "$pkg" ] && pkg=.
-echo "$id-s$n pkg=$pkg $(scripts/seed_confirm.sh "$dst/patch.diff" "$dst/demo_test.go" "$pkg" 2>&1 | tail -1)"
+echo "$id-$label$n pkg=$pkg $(scripts/seed_confirm.sh "$dst/patch.diff" "$dst/demo_test.go" "$pkg" 2>&1 | tail -1)"
